@@ -1,15 +1,18 @@
 #!/bin/sh
-# runs ./selftest.py over all stored seeds in five parallel shards (scratch copies under /tmp/st-*), then the
-# refactorings in one more; logs under build/selftest-*.log
+# runs ./selftest.py over all stored seeds (ten shards, two properties each) and all stored behaviour-preserving
+# changes (eleven shards) in parallel scratch copies under /tmp/st-*; logs under build/selftest-*.log, the tally in
+# build/selftest-all.log. About an hour on 16 cores.
 cd "$(dirname "$0")"
-for s in 'C0[1-5]*' 'C0[6-9]*' 'C1[0-4]*' 'C1[5-9]*' 'C20*'; do
+rm -f build/selftest-*.log
+for s in 'C0[12]*' 'C0[34]*' 'C0[56]*' 'C0[78]*' 'C09*' 'C10*' 'C1[12]*' 'C1[34]*' 'C1[56]*' 'C1[78]*' 'C19*' 'C20*'; do
   n=$(echo "$s" | tr -dc 'C0-9')
   ./selftest.py --seeds-only --only "$s" --base /tmp/st-$n --log /verif/build/selftest-$n.log > /dev/null 2>&1 &
 done
-for b in 'B[1-5]' 'B[6-9]' 'B1[0-4]' 'B1[5-9]' 'B2[0-9]' 'F*' 'M*'; do
-  n=$(echo "$b" | tr -dc 'BFM0-9')
+for b in 'B[1-4]' 'B[5-8]' 'B9' 'B1[0-3]' 'B1[4-7]' 'B1[89]' 'B2[0-2]' 'B2[3-5]' 'F[1-4]' 'F[5-8]' 'F9' 'F10' 'M[1-3]' 'M[45]' 'N[12]' 'N[34]'; do
+  n=$(echo "$b" | tr -dc 'BFMN0-9')
   ./selftest.py --benign-only --only-benign "$b" --base /tmp/st-$n --log /verif/build/selftest-benign-$n.log > /dev/null 2>&1 &
 done
 wait
 cat build/selftest-C*.log build/selftest-benign-*.log | grep -v "^expectations" | sort > build/selftest-all.log
 grep -c "caught\|quiet" build/selftest-all.log; grep -v "caught\|quiet" build/selftest-all.log
+true
